@@ -1,5 +1,6 @@
 use crate::runner::{run_prop, Opts};
 
+pub mod hostile;
 pub mod c02;
 pub mod c03;
 pub mod c04;
@@ -10,6 +11,7 @@ pub mod c17;
 
 pub fn dispatch(id: &str, opts: &mut Opts) -> i32 {
     match id {
+        "C01" => run_prop(&hostile::C01, opts),
         "C02" => run_prop(&c02::C02, opts),
         "C03" => run_prop(&c03::C03, opts),
         "C04" => run_prop(&c04::C04, opts),
